@@ -196,6 +196,22 @@ def default_style_enc(cls):
     return _DEFAULT_STYLE[cls]
 
 
+def plain(v):
+    """plain-data deep copy (dicts/lists/tuples/arrays; style objects become their as_dict()).
+    copy.deepcopy is NOT used on anything that may contain style objects: it is under test."""
+    if hasattr(v, "as_dict"):
+        return plain(v.as_dict())
+    if isinstance(v, dict):
+        return {k: plain(x) for k, x in v.items()}
+    if isinstance(v, list):
+        return [plain(x) for x in v]
+    if isinstance(v, tuple):
+        return tuple(plain(x) for x in v)
+    if isinstance(v, np.ndarray):
+        return v.copy()
+    return v
+
+
 def style_obs(obj):
     """(encoding of the effective style without label, label) -- never touches obj.style"""
     st = obj.__dict__.get("_style")
@@ -207,7 +223,7 @@ def style_obs(obj):
         key = (type(obj), enc(kw))
         if key not in _PENDING_CACHE:
             scratch = type(obj)._style_class()
-            scratch.update(deepcopy(kw))
+            scratch.update(plain(kw))
             d, lab = strip_label(scratch.as_dict())
             _PENDING_CACHE[key] = (enc(d), lab)
         return _PENDING_CACHE[key]
@@ -219,11 +235,11 @@ def eff_style_dict(obj):
     st = obj.__dict__.get("_style")
     kw = obj.__dict__.get("_style_kwargs")
     if st is not None:
-        return deepcopy(st.as_dict())
+        return plain(st.as_dict())
     if kw:
         scratch = type(obj)._style_class()
-        scratch.update(deepcopy(kw))
-        return scratch.as_dict()
+        scratch.update(plain(kw))
+        return plain(scratch.as_dict())
     return None
 
 
@@ -231,7 +247,7 @@ def scratch_style_after(obj_cls, eff, updates):
     """encoding (without label) of a scratch style = effective dict `eff` then each update"""
     scratch = obj_cls._style_class()
     if eff is not None:
-        scratch.update(deepcopy(eff))
+        scratch.update(plain(eff))
     for u in updates:
         u(scratch)
     d, lab = strip_label(scratch.as_dict())
@@ -342,10 +358,40 @@ def style_ctor_kwargs(style):
         out["style"] = deepcopy(style["dict"])
     for k, v in (style.get("kw") or {}).items():
         out["style_" + k] = deepcopy(v)
+    if style.get("traces"):
+        out["style_model3d_data"] = [build_trace(t) for t in style["traces"]]
     return out
 
 
-def attr_value(name, val):
+def build_trace(spec):
+    """JSON trace specification -> keyword arguments of Trace3d / add_trace ("np": arrays inside)"""
+    as_np = spec.get("np")
+    t = {k: deepcopy(v) for k, v in spec.items() if k != "np"}
+    if "args" in t:
+        t["args"] = tuple(np.array(a, dtype=float) if as_np else a for a in t["args"])
+    if "kwargs" in t and as_np:
+        t["kwargs"] = {k: (np.array(v, dtype=float) if isinstance(v, list) else v) for k, v in t["kwargs"].items()}
+    return t
+
+
+def traces_of(obj):
+    """the user traces of the effective style as plain dicts, without touching obj.style"""
+    eff = eff_style_dict(obj)
+    return [] if eff is None else eff["model3d"]["data"]
+
+
+def attr_value(name, val, src=None):
+    """python value of a JSON attribute value.  {"alias": attr, "slice": k}: the very object that the
+    public attribute `attr` of `src` returns (a view of its buffer), optionally its first k path steps"""
+    if isinstance(val, dict) and "alias" in val:
+        if src is None:
+            raise Skip()
+        v = getattr(src, val["alias"])
+        if val.get("slice") is not None:
+            if not (isinstance(v, np.ndarray) and v.ndim == 2 and 1 <= val["slice"] <= len(v)):
+                raise Skip()
+            v = v[:val["slice"]]
+        return v
     if name == "orientation":
         return mk_rot(val)
     if name == "field_func":
@@ -387,7 +433,7 @@ def mutate(obj, m):
         if k == "set":
             if not isinstance(getattr(type(obj), m["attr"], None), property):
                 raise Skip()
-            setattr(obj, m["attr"], attr_value(m["attr"], m["val"]))
+            setattr(obj, m["attr"], attr_value(m["attr"], m["val"], obj))
         elif k == "move":
             obj.move(m["disp"], start=m.get("start", "auto"))
         elif k == "rotate":
@@ -399,19 +445,17 @@ def mutate(obj, m):
                 raise Skip()
             if not write_into(obj.__dict__[m["slot"]], m["val"]):
                 raise Skip()
-        elif k == "style":
-            obj.style.update(deepcopy(m["upd"]))
-        elif k == "nested":
-            tgt = obj.style
-            for name in m["path"][:-1]:
-                tgt = getattr(tgt, name)
-            setattr(tgt, m["path"][-1], deepcopy(m["val"]))
-        elif k == "styleset":
-            obj.style = deepcopy(m["val"])
+        elif k in STYLE_MUT:
+            if k == "trace":          # applicability is decided WITHOUT touching obj.style
+                trs = traces_of(obj)
+                if m["idx"] >= len(trs) or not trace_mut_applicable(trs[m["idx"]], m["what"]):
+                    raise Skip()
+            if k == "styleset":
+                obj.style = deepcopy(m["val"])       # the public setter route
+            else:
+                style_mutation_on(obj.style, m)
         elif k == "label":
             obj.style.label = m["label"]
-        elif k == "touch":
-            obj.style  # pylint: disable=pointless-statement
         elif k == "childstyles":
             if not isinstance(obj, magpy.Collection):
                 raise Skip()
@@ -420,25 +464,63 @@ def mutate(obj, m):
             raise ValueError(k)
 
 
-def style_mutation_on(scratch, m):
+def trace_mut_applicable(tr, what):
+    if what == "kwx":
+        return isinstance(tr.get("kwargs"), dict) and "x" in tr["kwargs"]
+    if what == "kwmode":
+        return isinstance(tr.get("kwargs"), dict)
+    if what == "arg0":
+        return isinstance(tr.get("args"), tuple) and len(tr["args"]) > 0
+    return True
+
+
+def style_mutation_on(style, m):
+    """the style mutation m on a style object (the real one or a scratch one)"""
     k = m["k"]
     if k == "style":
-        scratch.update(deepcopy(m["upd"]))
+        style.update(deepcopy(m["upd"]))
     elif k == "styleset":
-        scratch.update(deepcopy(m["val"]))
+        style.update(deepcopy(m["val"]))        # obj.style = dict  ==  obj.style.update(dict)
     elif k == "nested":
-        tgt = scratch
+        tgt = style
         for name in m["path"][:-1]:
             tgt = getattr(tgt, name)
         setattr(tgt, m["path"][-1], deepcopy(m["val"]))
     elif k == "touch":
         pass
+    elif k == "addtrace":
+        style.model3d.add_trace(**build_trace(m["trace"]))
+    elif k == "trace":                           # in-place mutation of a user trace
+        t = style.model3d.data[m["idx"]]
+        what = m["what"]
+        if what == "show":
+            t.show = not t.show
+        elif what == "scale":
+            t.scale = m.get("val", 5)
+        elif what == "constructor":
+            t.constructor = m.get("val", "Mesh3d")
+        elif what == "kwx":
+            t.kwargs["x"][0] = 99
+        elif what == "kwmode":
+            t.kwargs["mode"] = m.get("val", "markers")
+        elif what == "arg0":
+            t.args[0][0] = 99
+        else:
+            raise ValueError(what)
     else:
         raise ValueError(k)
 
 
+def apply_overrides(obj, attrs):
+    """what copy(**attrs) does to the copy, on a twin: all values are taken (from the twin's own
+    attributes where they alias) BEFORE the first setattr, then assigned in order"""
+    vals = [(name, attr_value(name, val, obj)) for name, val in attrs]
+    for name, v in vals:
+        setattr(obj, name, v)
+
+
 VALUE_MUT = ("set", "move", "rotate", "reset", "write")
-STYLE_MUT = ("style", "nested", "styleset", "touch")
+STYLE_MUT = ("style", "nested", "styleset", "touch", "addtrace", "trace")
 
 
 def mut_name(m):
@@ -453,6 +535,10 @@ def mut_name(m):
         return "style." + ".".join(m["path"])
     if k == "style":
         return "style.update"
+    if k == "trace":
+        return "style.model3d.data[i]." + m["what"]
+    if k == "addtrace":
+        return "style.model3d.add_trace"
     return k
 
 
@@ -528,7 +614,7 @@ class World:
             if step[0] == "mut":
                 mutate(t, step[1])
             else:
-                setattr(t, step[1], attr_value(step[1], step[2]))
+                apply_overrides(t, step[1])
         return t
 
     def calibrate(self, i, fn):
@@ -614,10 +700,10 @@ class World:
         return (f"(CNew {KINDC[kind]} {cl(self.slot_tokens(obj))} {mode} {st} "
                 f"{clab(label_code(lab, type(obj).__name__))})")
 
-    def copy_kwargs(self, kw):
+    def copy_kwargs(self, kw, src=None):
         out = {}
         for name, val in kw.get("attrs", []):
-            out[name] = attr_value(name, val)
+            out[name] = attr_value(name, val, src)
         out.update(style_ctor_kwargs(kw))
         return out
 
@@ -629,8 +715,7 @@ class World:
         if self.model:
             if kw.get("attrs"):
                 def fn(t):
-                    for name, val in kw["attrs"]:
-                        setattr(t, name, attr_value(name, val))
+                    apply_overrides(t, kw["attrs"])
                 rebound, written = self.calibrate(xi, fn)
                 if written:
                     raise RuntimeError("a keyword override writes in place")
@@ -654,7 +739,7 @@ class World:
             self.stat("copy:of-a-copy")
         with warnings.catch_warnings():
             warnings.simplefilter("ignore")
-            y = x.copy(**self.copy_kwargs(kw))
+            y = x.copy(**self.copy_kwargs(kw, x))
         self.reg_copy(xi, y, kw)
         self.clones.update(i for i in range(n, len(self.objs)) if self.kinds[i] != "junk")
         self.last_copy = (xi, n)
@@ -680,7 +765,7 @@ class World:
             if i in pairs:
                 rec = list(self.recipes[i])
                 if i == xi and kw:
-                    rec += [("kw", name, val) for name, val in kw.get("attrs", [])]
+                    rec += [("kws", kw["attrs"])] if kw.get("attrs") else []
                 self.reg(pairs[i], self.kinds[i], rec)
             else:
                 self.reg(0, "junk")
@@ -924,7 +1009,7 @@ def vec3(rng, lo=-2, hi=2):
 
 
 def path3(rng, k=None):
-    k = k or rng.choice([2, 3])
+    k = k or rng.choice([2, 3, 3, 4])
     return [vec3(rng) for _ in range(k)]
 
 
@@ -933,7 +1018,7 @@ def rotvec(rng):
 
 
 def gen_pos(rng):
-    return path3(rng) if rng.random() < 0.25 else vec3(rng)
+    return path3(rng) if rng.random() < 0.4 else vec3(rng)
 
 
 def gen_vertices(rng, k):
@@ -1030,9 +1115,26 @@ def gen_style(rng, clsname, allow_trace=False):
             d = {"model3d": {"showdefault": False, "data": [
                 {"backend": "generic", "constructor": "scatter3d",
                  "kwargs": {"x": [0, 1], "y": [0, 1], "z": [0, 1]}, "show": True}]}}
-    if not kw and d is None:
+    traces = None
+    if rng.random() < 0.4:
+        traces = [gen_trace(rng) for _ in range(rng.choice([1, 1, 2]))]
+    if not kw and d is None and not traces:
         kw["color"] = "red"
-    return {"kw": kw, "dict": d}
+    return {"kw": kw, "dict": d, "traces": traces}
+
+
+def gen_trace(rng):
+    """a user-defined 3d-model trace (plain lists or ndarrays inside; kwargs or args variant)"""
+    pts = [[q(rng, -1, 1) for _ in range(3)] for _ in range(3)]
+    if rng.random() < 0.7:
+        t = {"backend": "generic", "constructor": rng.choice(["Scatter3d", "Mesh3d"]),
+             "kwargs": {"x": pts[0], "y": pts[1], "z": pts[2], "mode": "lines"},
+             "show": rng.random() < 0.8, "scale": rng.choice([1, 2])}
+    else:
+        t = {"backend": "matplotlib", "constructor": "plot", "args": pts, "show": True}
+    if rng.random() < 0.4:
+        t["np"] = True
+    return t
 
 
 def gen_new(rng, cls=None, search=False):
@@ -1060,6 +1162,15 @@ def gen_new(rng, cls=None, search=False):
 
 def gen_mut(rng, obj, clsname, corr):
     """one mutation of a single object"""
+    npath = len(obj._position)
+    trs = traces_of(obj)
+    if trs and rng.random() < 0.35:          # in-place mutation of a user trace of the style
+        idx = rng.randrange(len(trs))
+        whats = [wh for wh in ("show", "scale", "constructor", "kwx", "kwmode", "arg0")
+                 if trace_mut_applicable(trs[idx], wh)]
+        return {"k": "trace", "idx": idx, "what": rng.choice(whats)}
+    if rng.random() < 0.05:
+        return {"k": "addtrace", "trace": gen_trace(rng)}
     x = rng.random()
     if x < 0.2:
         names = ["position", "orientation"] + SETTABLE[clsname]
@@ -1071,13 +1182,23 @@ def gen_mut(rng, obj, clsname, corr):
             val = vec3(rng) if isinstance(obj._field_func, functools.partial) else "func"
         return {"k": "set", "attr": name, "val": val}
     if x < 0.38:
-        if rng.random() < 0.6:
-            return {"k": "move", "disp": vec3(rng)}
+        if rng.random() < 0.55:
+            return {"k": "move", "disp": vec3(rng)}           # scalar: the whole path, in place
+        if npath >= 2 and rng.random() < 0.6:                 # vector inside the path: no padding, in place
+            st = rng.randrange(npath)
+            return {"k": "move", "disp": path3(rng, rng.randint(1, npath - st)), "start": st}
         return {"k": "move", "disp": path3(rng), "start": rng.choice(["auto", 0, 1])}
     if x < 0.48:
-        ang = rng.choice([90, 45, [30, 60]])
-        return {"k": "rotate", "angle": ang, "axis": rng.choice(["x", "y", "z"]),
-                "anchor": rng.choice([None, None, [1, 0, 0]])}
+        m = {"k": "rotate", "angle": rng.choice([90, 45, 30]), "axis": rng.choice(["x", "y", "z"]),
+             "anchor": rng.choice([None, [1, 0, 0], [0, 0.5, 0], 0])}
+        if npath >= 2 and rng.random() < 0.5:
+            st = rng.randrange(npath)
+            m["start"] = st
+            if rng.random() < 0.5:
+                m["angle"] = [rng.choice([30, 60, 90]) for _ in range(rng.randint(1, npath - st))]
+        elif rng.random() < 0.25:
+            m["angle"] = [30, 60]                              # appended: pads the path
+        return m
     if x < 0.52:
         return {"k": "reset"}
     if x < 0.68:
@@ -1105,15 +1226,22 @@ def gen_copy_kw(rng, w, xi, corr):
         return {}
     x = w.objs[xi]
     clsname = type(x).__name__
-    kw = {"attrs": [], "kw": {}, "dict": None}
+    kw = {"attrs": [], "kw": {}, "dict": None, "traces": None}
     only_style = corr and w.kinds[xi] == "coll" and x._children
     for _ in range(rng.choice([1, 1, 2, 3])):
         r = rng.random()
         if r < 0.45 and not only_style:
-            names = ["position", "orientation"] + SETTABLE[clsname]
+            names = ["position", "position", "orientation"] + SETTABLE[clsname]
             name = rng.choice(names)
             if name not in [a for a, _ in kw["attrs"]]:
-                kw["attrs"].append([name, gen_attr(rng, clsname, name)])
+                val = gen_attr(rng, clsname, name)
+                if rng.random() < 0.45:
+                    # aliasing candidate: the very object the original's own attribute returns
+                    val = {"alias": name}
+                    npath = len(x._position)
+                    if name == "position" and npath >= 2 and rng.random() < 0.5:
+                        val["slice"] = rng.randint(1, npath)
+                kw["attrs"].append([name, val])
         elif r < 0.65:
             kw["kw"]["label"] = rng.choice(["a", "b", "c", "b_04", clsname])
         elif r < 0.85:
@@ -1124,6 +1252,8 @@ def gen_copy_kw(rng, w, xi, corr):
         else:
             kw["dict"] = rng.choice([{"description": {"text": "cc"}}, {"label": "d", "opacity": 0.625},
                                      {"color": "yellow"}])
+            if rng.random() < 0.3:
+                kw["traces"] = [gen_trace(rng)]
     return kw
 
 
@@ -1399,8 +1529,22 @@ def directed_mutation(w, i, name):
     with warnings.catch_warnings():
         warnings.simplefilter("ignore")
         if name == "_style":
-            o.style.update(opacity=0.123)
+            # in place first (update() re-creates the nested objects): user traces, nested properties
+            for t in o.style.model3d.data:
+                t.show = not t.show
+                t.scale = 7.5
+                if isinstance(t.kwargs, dict):
+                    t.kwargs["c18"] = "probe"
+                    for v in t.kwargs.values():
+                        if isinstance(v, (list, np.ndarray)) and len(v) and not isinstance(v[0], (list, np.ndarray)):
+                            v[0] = 99
+                if isinstance(t.args, tuple):
+                    for v in t.args:
+                        if isinstance(v, (list, np.ndarray)) and len(v):
+                            v[0] = 99
             o.style.description.text = "c18-probe"
+            o.style.model3d.add_trace(backend="generic", constructor="Scatter3d", kwargs={"x": [1]})
+            o.style.update(opacity=0.123)
             return True
         if name == "_children":
             o.add(magpy.Sensor())
@@ -1435,6 +1579,8 @@ def kw_names(kw):
     names += ["style_" + k for k in (kw.get("kw") or {})]
     if kw.get("dict") is not None:
         names.append("style")
+    if kw.get("traces"):
+        names.append("style_model3d_data")
     return names
 
 
@@ -1485,8 +1631,7 @@ def run_scenario(ops, stats=None):
         try:
             with warnings.catch_warnings():
                 warnings.simplefilter("ignore")
-                for name, val in kw["attrs"]:
-                    setattr(x2, name, attr_value(name, val))
+                apply_overrides(x2, kw["attrs"])
         except Exception:      # pylint: disable=broad-except
             if stats is not None:
                 stats["override-rejected-by-setter"] = stats.get("override-rejected-by-setter", 0) + 1
@@ -1495,7 +1640,7 @@ def run_scenario(ops, stats=None):
     try:
         with warnings.catch_warnings():
             warnings.simplefilter("ignore")
-            y = x.copy(**w.copy_kwargs(kw))
+            y = x.copy(**w.copy_kwargs(kw, x))
     except Exception as e:      # pylint: disable=broad-except
         if X0[xi][1][1] == "" and "label" not in (kw.get("kw") or {}) and "label" not in (kw.get("dict") or {}):
             raise Fail("label", cls, f"empty-raises-{type(e).__name__}",
@@ -1606,6 +1751,8 @@ def run_scenario(ops, stats=None):
     side = None
     sides = {"old": old, "new": new}
     snap = {"old": flat_snapshot(w, old), "new": flat_snapshot(w, new)}
+    roots = {"old": x, "new": y}
+    fld = {"old": field_of(x), "new": fb} if post else {}
     lastmut = None
     for op in post:
         for st in ([{"op": "pad"}] * len(w.objs) if op["op"] == "padcopy" else [op]):
@@ -1639,6 +1786,15 @@ def run_scenario(ops, stats=None):
             raise Fail("shared_state", cls, f"{who}.{op_name(lastmut)}",
                        f"after {trig}: {op_name(lastmut)} on the {who} side changed `{d[1]}` of object {d[0]} "
                        f"({type(w.objs[d[0]]).__name__}) on the other side")
+        f0, f1 = fld.get(other), field_of(roots[other])
+        if f0 is not None and not isinstance(f0, str):
+            bad = isinstance(f1, str) or f1 is None or any(
+                a.shape != b.shape or (np.all(np.isfinite(a)) and a.dtype.kind == "f" and not np.allclose(
+                    a, b, rtol=1e-12, atol=1e-12 * float(np.max(np.abs(a), initial=0.0)))) for a, b in zip(f0, f1))
+            if bad:
+                who = "original" if side == "old" else "copy"
+                raise Fail("shared_state", cls, f"{who}.{op_name(lastmut)}",
+                           f"after {trig}: {op_name(lastmut)} on the {who} side changed the field of the other side")
         if stats is not None:
             stats["mutations"] = stats.get("mutations", 0) + 1
     # static sharing, confirmed by a directed mutation through the original
@@ -1661,7 +1817,7 @@ def run_scenario(ops, stats=None):
             continue
         d = diff_snapshot(before, flat_snapshot(w, new))
         if d is not None:
-            raise Fail("shared_state", cls, f"shared:{oname}",
+            raise Fail("shared_state", cls, f"shared:{oname}" + ("" if not names else ":" + trig),
                        f"after {trig}: `{oname}` of object {oi} and `{nname}` of its copy {nj} share {kind}; "
                        f"a change of the original shows as `{d[1]}` of object {d[0]} of the copy")
         if stats is not None:
@@ -1802,19 +1958,24 @@ def shrink_scenario(ops, clause):
                 cand = small[:ci] + [dict(small[ci], kw=trial)] + small[ci + 1:]
                 if fails_ops(cand):
                     kw, small = trial, cand
-        elif kw.get("dict") is not None:
-            trial = deepcopy(kw)
-            trial["dict"] = None
-            cand = small[:ci] + [dict(small[ci], kw=trial)] + small[ci + 1:]
-            if fails_ops(cand):
-                kw, small = trial, cand
+        elif kw.get("dict") is not None or kw.get("traces"):
+            for key in ("dict", "traces"):
+                if kw.get(key):
+                    trial = deepcopy(kw)
+                    trial[key] = None
+                    cand = small[:ci] + [dict(small[ci], kw=trial)] + small[ci + 1:]
+                    if fails_ops(cand):
+                        kw, small = trial, cand
     # simplify the constructions: the simplest class, no style, default path
     def simpler(op):
         if op["cls"] != "Sensor":
-            yield {"op": "new", "cls": "Sensor", "args": {"pixel": [0, 0, 0]}, "sm": op.get("sm", 0),
-                   "style": op.get("style")}
+            yield {"op": "new", "cls": "Sensor", "sm": op.get("sm", 0), "style": op.get("style"),
+                   "args": dict({k: v for k, v in op["args"].items() if k in ("position", "orientation")},
+                                pixel=[0, 0, 0])}
         if op.get("sm", 0) != 0:
             yield dict(op, sm=0, style=None)
+        if (op.get("style") or {}).get("traces") and ((op["style"].get("kw") or op["style"].get("dict"))):
+            yield dict(op, style={"kw": {}, "dict": None, "traces": op["style"]["traces"][:1]})
         if "position" in op["args"] or "orientation" in op["args"]:
             yield dict(op, args={k: v for k, v in op["args"].items() if k not in ("orientation", "position")})
     for i in range(len(small)):
@@ -1976,7 +2137,7 @@ def run(ctx):
             except Fail as f:
                 fails.append((ops, f))
         for _ in range(n):
-            if len(fails) >= 60:          # plenty of counterexamples: shrink them instead of collecting more
+            if len(fails) >= 20:          # plenty of counterexamples: shrink them instead of collecting more
                 break
             ops = random_scenario(ctx.rng)
             ctx.case(json.dumps(ops, sort_keys=True), True)
